@@ -279,6 +279,22 @@ def gen_long_valid_run(rng, n, p_foreign=0.03):
     return items
 
 
+def gen_boundary_faults(rng, items, faults):
+    """socket faults (timeouts, OS errors) aimed exactly at item boundaries, where the
+    reader holds no partly consumed item: an application that polls again must lose
+    nothing and see nothing twice.  Returns (aims, poll) -- poll = number of
+    consecutive empty results the application has to tolerate."""
+    offs = [0] + [e for (_s, e) in offsets_of(items)][:-1]
+    k = rng.choice((1, 1, 2, 3, min(len(offs), 40)))  # bounded: the application loop records at most 5000 events
+    chosen = sorted(rng.sample(offs, min(k, len(offs))))
+    aims = []
+    for o in chosen:
+        aims.append([o, list(rng.choice(faults))])
+        if rng.random() < 0.25:
+            aims.append([o, list(rng.choice(faults))])  # two in a row
+    return aims, len(aims) + 1
+
+
 def gen_hostile_items(rng, n):
     items = []
     p_copy = rng.choice((0.0, 0.0, 0.15, 0.4))
